@@ -136,6 +136,10 @@ def cycle(spec, cfg, tmp, ncycles=4, origin=None, read_function=None, record=Fal
     try:
         if origin is None:
             A = call_real('build', O.build, spec)
+            if cfg.get('edits'):
+                # edited through the public API before writing; what must come back is the edited object
+                call_real('edit', O.apply_edits, A, cfg['edits'])
+                spec = O.dump(A)
             wkw = {}
             if spec.get('simulator') and cfg.get('xp') is not None:
                 wkw = dict(extra_precision=cfg['xp'], echo_extra_precision=cfg.get('echo'))
